@@ -61,6 +61,34 @@ def api_readback(ctx, c, expected):
                 h = ((h ^ b) * 1099511628211) & 0xFFFFFFFFFFFFFFFF
             if len(data) != a['len'] or str(h) != a['hash']:
                 problems.append(('api-read-differs', '%s %s: %d bytes' % (key, p, len(data))))
+        # nothing else appears: every path the history mentions and the specification no longer holds must be gone,
+        # both for the object that was edited and for the reopened image
+        have = {(ns, path) for (ns, kind, path) in exp}
+        ghosts = set()
+        for op in c.ops:
+            for key, ns in (('iso', 'I'), ('joliet', 'J'), ('udf', 'U')):
+                if op.get(key):
+                    ghosts.add((ns, op[key]))
+                    if ns == 'I' and op.get('rr') and op[key].count('/') == 1:
+                        ghosts.add(('R', '/' + op['rr']))
+            if op.get('path') and op.get('ns') in ('i', 'j', 'u'):
+                ghosts.add((op['ns'].upper(), op['path']))
+            if op.get('new') and op.get('nns') in ('i', 'j', 'u'):
+                ghosts.add((op['nns'].upper(), op['new']))
+        for ns, p in sorted(ghosts):
+            hx = '/' + '/'.join(x.encode('utf-8').hex() for x in p.split('/') if x)
+            if (ns, hx) in have or (ns == 'I' and any(h == ns and q.split('/')[-1].startswith(hx.split('/')[-1]) for h, q in have if q.rsplit('/', 1)[0] == hx.rsplit('/', 1)[0])):
+                continue
+            key = {'I': 'iso_path', 'J': 'joliet_path', 'U': 'udf_path', 'R': 'rr_path'}[ns]
+            for which, obj in (('edited object', c.iso), ('reopened image', iso2)):
+                if obj is None:
+                    continue
+                try:
+                    obj.get_record(**{key: p})
+                except Exception:  # noqa
+                    continue
+                problems.append(('ghost/%s' % ns, '%s still resolves %s %s although the edits removed it' % (which, key, p)))
+                break
     finally:
         iso2.close()
     return problems
@@ -98,16 +126,70 @@ def cfg_tag(cfg):
                             'U' if cfg.get('udf') else '', 'X' if cfg.get('xa') else '')
 
 
-def run(ctx, force=None, focus='C01', n_quick=300, n_thorough=6000, post=None, reopen_every=None, opmix=None, sizes=None):
+def directed_cfgs(ctx, force):
+    base = [{'ilevel': 1, 'rr': None, 'joliet': None, 'udf': None, 'xa': False},
+            {'ilevel': 3, 'rr': '1.09', 'joliet': 3, 'udf': '2.60', 'xa': False},
+            {'ilevel': 3, 'rr': '1.12', 'joliet': 3, 'udf': None, 'xa': False},
+            {'ilevel': 2, 'rr': None, 'joliet': 3, 'udf': None, 'xa': False}]
+    extra = 2 if ctx.quick else 12
+    for _ in range(extra):
+        base.append({'ilevel': ctx.rng.choice([1, 2, 3, 4]), 'rr': ctx.rng.choice([None, '1.09', '1.10', '1.12']),
+                     'joliet': ctx.rng.choice([None, 1, 3]), 'udf': ctx.rng.choice([None, '2.60']), 'xa': ctx.rng.random() < 0.25})
+    seen, out = set(), []
+    for c in base:
+        if force:
+            c = dict(c, **{k: v for k, v in force.items() if k in c})
+        key = repr(sorted(c.items()))
+        if key not in seen:
+            seen.add(key)
+            out.append(c)
+    return out
+
+
+def run_directed(ctx, force, focus, post, reopen_every, tmpdir):
+    """the directed histories of gen.directed (sector-exact directories, grow/shrink, resurrected names, continuation
+    holes), through the same oracles as the generated ones; with reopen_every, once more with a reopen before the tail"""
+    for cfg in directed_cfgs(ctx, force):
+        for label, ops in gen.directed(cfg):
+            variants = [ops]
+            if reopen_every:
+                cut = max(1, len(ops) - max(1, len(ops) // 4))
+                variants = [ops[:cut] + [{'op': 'reopen'}] + ops[cut:]]
+            for v in variants:
+                c = histcheck.build_case(ctx, random.Random(7), cfg, 0, tmpdir, ops=v)
+                ctx.dist['family:directed:%s' % label.split('-')[0]] += 1
+                if any(r != 'ok' for r in c.results):
+                    ctx.dist['directed-refused:%s' % label] += 1
+                    ctx.notes.append('directed history %s refused under %s: %s' % (label, cfg, [r for r in c.results if r != 'ok'][:2]))
+                else:
+                    rep = check_case(ctx, c, focus)
+                    if post is not None and rep is not None:
+                        post(ctx, c, rep)
+                if c.path:
+                    try:
+                        import os
+                        os.unlink(c.path)
+                    except OSError:
+                        pass
+                try:
+                    c.session.close()
+                except Exception:
+                    pass
+
+
+def run(ctx, force=None, focus='C01', n_quick=600, n_thorough=8000, post=None, reopen_every=None, opmix=None, sizes=None, directed=True):
     tmpdir = tempfile.mkdtemp(prefix='verif-%s-' % focus.lower())
     try:
         n = n_quick if ctx.quick else n_thorough
+        if directed:
+            run_directed(ctx, force, focus, post, reopen_every, tmpdir)
         for k in range(n):
             seed = ctx.rng.randrange(2 ** 62)
             rng = random.Random(seed)
             cfg = gen.sample_cfg(rng, force)
             nops = rng.choice([6, 10, 16, 25] if ctx.quick else [10, 20, 40, 80])
             c = histcheck.build_case(ctx, rng, cfg, nops, tmpdir, reopen_every=reopen_every, opmix=opmix)
+            ctx.dist['family:%s' % getattr(getattr(c.session, 'shadow', None), 'family', '?')] += 1
             rep = check_case(ctx, c, focus)
             if post is not None and rep is not None:
                 post(ctx, c, rep)
